@@ -855,7 +855,14 @@ def run(tier, seed, replay=None):
         for (sc, text, spec, pt, tau, info) in member_queue:
             exprs.append(f"in_shape_tol {nw.sh_expr(spec)} {nw.wit_expr(spec, pt)} {nw.vq(pt)} {nw._q(tau)}")
         try:
-            verdicts = nw.coq_bools(PID, exprs, tag="member", per_file=max(10, len(exprs) // (2 * cm.NCPU) + 1))
+            try:
+                verdicts = nw.coq_bools(PID, exprs, tag="member", per_file=max(10, len(exprs) // (2 * cm.NCPU) + 1))
+            except RuntimeError as e0:
+                if "inconsistent assumptions" not in str(e0):
+                    raise
+                # another agent rebuilt a dependency between our build and this evaluation: rebuild our targets, once more
+                cm.coq_build(["theories/Props/C12.vo", "theories/Checker/Shapes.vo"])
+                verdicts = nw.coq_bools(PID, exprs, tag="member", per_file=max(10, len(exprs) // (2 * cm.NCPU) + 1))
             for (sc, text, spec, pt, tau, info), ok in zip(member_queue, verdicts):
                 T.hit("member_checked_by_coq")
                 if not ok:
